@@ -2,6 +2,7 @@
 import copy
 import math
 import pickle
+import re
 
 from common import freephil, enc, call_j, attr_j, word_j, AutoT
 from values import pval_j, eval_table
@@ -13,13 +14,19 @@ LEVEL_TEXT = ("Lean theorems about the converter model, for all word lists, all 
               "None/Auto gates), the bool spelling table is exactly the accepted set, integral floats are accepted for int. "
               "The model is tied to /repo by a correspondence run of from_words over a constraint x value-text grid (CPython's "
               "int()/eval answers travel with the request); the oracle re-checks the domain predicate on the implementation's "
-              "results and a fixed table of spellings that must be accepted.")
+              "results against the arguments DECLARED in the type expression (never the converter object's attributes) and a "
+              "fixed table of spellings that must be accepted. Types whose bound literals lie outside the model's type grammar "
+              "(non-integer bound on int/ints, exponent or non-dyadic literals) are evaluated by the oracle only.")
 LEVEL_NOTE = ("eval() and float parsing are CPython's (parameter of the model). ints beyond 2^53 given to float types are outside "
               "the modelled domain. Finding D22: float/floats with value_min/value_max accept nan (nan compares false).")
 TECHNIQUE = "Lean 4 theorem fromWords_in_domain over all inputs/constraints + differential correspondence with eval answers as parameters"
-RULE = ("built-in numeric/bool/list types with constructor-argument combinations x value texts from a grammar of numbers, "
-        "expressions, separators, brackets, None/Auto/True/False in any case, inf/nan, wrong counts, joined in pairs; "
-        "non-trivial = value text has a digit or a letter; distinct = (type, optional, text)")
+RULE = ("built-in numeric/bool/list types with constructor-argument combinations (a fixed list plus a generated pool: every keyword "
+        "present or absent, bounds from integral / fractional / float-spelled-integral literals of either sign for every numeric "
+        "type, sizes, None/Auto gates) x value texts from a grammar of numbers, expressions, separators, brackets, "
+        "None/Auto/True/False in any case, inf/nan, wrong counts, joined in pairs, plus numbers at and next to every declared "
+        "bound (floor, ceil, truncation, +-1/2, +-1) in several spellings; the oracle reads the DECLARED arguments from the "
+        "type expression, never from the converter object; non-trivial = value text has a digit or a letter; "
+        "distinct = (type, optional, text)")
 ASSUMPTIONS = ["type expressions are the built-in ones with literal arguments"]
 
 TYPES = ["int", "float", "ints", "floats", "bool", "int(value_min=0, value_max=10)", "int(value_min=-3)", "int(value_max=7)",
@@ -44,11 +51,127 @@ MUST_ACCEPT = [
 ]
 
 
-def value_text(rng):
+# ---- constructor-argument combinations in general form -------------------------------------------------------------------
+# Bound literals as a master file can write them.  The statement quantifies over "all constructor-argument combinations":
+# nothing ties the number class of a bound to the number class of the type (int(value_min=0.5) = "more than half a unit",
+# float(value_max=3)), so every literal class is offered to every numeric type, with either sign.
+BOUND_LITS = {
+    "integral": ["0", "1", "2", "3", "7", "10", "-1", "-2", "-3", "-10"],
+    "fractional": ["0.5", "-0.5", "2.5", "-2.5", "1.5", "-1.5", "0.25", "-0.75", "7.5", "9.125", "-3.875", ".5", "0.1", "-2.9"],
+    "integral_float": ["2.0", "-1.0", "0.0", "3.", "1e1", "-1e1", "1e3", "5e0"],
+}
+BOUND_CLASSES = ["integral", "integral", "fractional", "fractional", "integral_float"]
+_INT_LIT = re.compile(r"-?\d+\Z")
+_DEC_LIT = re.compile(r"-?(\d+\.\d*|\.\d+)\Z")
+
+
+def gen_type(rng):
+    """one numeric type expression with a random combination of constructor arguments (always constructible: the
+    constructor's own assertions min <= max, size > 0, size xor size_min/size_max are respected)"""
+    kind = rng.choice(["int", "float", "ints", "floats"])
+    args = []
+    lo = rng.choice(BOUND_LITS[rng.choice(BOUND_CLASSES)]) if rng.random() < 0.6 else None
+    hi = rng.choice(BOUND_LITS[rng.choice(BOUND_CLASSES)]) if rng.random() < 0.6 else None
+    if lo is not None and hi is not None and float(lo) > float(hi):
+        lo, hi = hi, lo
+    if lo is not None:
+        args.append("value_min=" + lo)
+    if hi is not None:
+        args.append("value_max=" + hi)
+    if kind in ("int", "float"):
+        if rng.random() < 0.35:
+            args.append("allow_none=" + rng.choice(["True", "False", "False"]))
+    else:
+        k = rng.random()
+        if k < 0.3:
+            args.append("size=%d" % rng.choice([1, 2, 2, 3, 4]))
+        elif k < 0.65:
+            a, b = sorted([rng.choice([1, 2, 3]), rng.choice([1, 2, 3, 4])])
+            which = rng.choice(["min", "max", "both"])
+            if which in ("min", "both"):
+                args.append("size_min=%d" % a)
+            if which in ("max", "both"):
+                args.append("size_max=%d" % b)
+        if rng.random() < 0.3:
+            args.append("allow_none_elements=" + rng.choice(["True", "True", "False"]))
+        if rng.random() < 0.3:
+            args.append("allow_auto_elements=" + rng.choice(["True", "True", "False"]))
+    rng.shuffle(args)
+    return kind + ("(" + ", ".join(args) + ")" if args else "")
+
+
+_decl = {}
+
+
+def declared(t):
+    """(phil type name, declared domain) read off the type EXPRESSION, independently of the implementation's converter
+    object: the property is about the domain the master file declares, whatever the converter chooses to store."""
+    if t not in _decl:
+        name, _, rest = t.partition("(")
+        kw = eval("dict(" + rest[:-1] + ")", {"__builtins__": {"dict": dict}}, {}) if rest else {}
+        d = {"value_min": kw.get("value_min"), "value_max": kw.get("value_max")}
+        if name in ("int", "float"):
+            d["allow_none"] = kw.get("allow_none", True)
+        elif name in ("ints", "floats"):
+            size = kw.get("size")
+            d["size_min"] = size if size is not None else kw.get("size_min")
+            d["size_max"] = size if size is not None else kw.get("size_max")
+            d["allow_none_elements"] = kw.get("allow_none_elements", False)
+            d["allow_auto_elements"] = kw.get("allow_auto_elements", False)
+        lits = [a.split("=")[1].strip() for a in (rest[:-1].split(",") if rest else []) if a.strip().startswith("value_m")]
+        d["bound_lits"] = lits
+        _decl[t] = (name.strip(), d)
+    return _decl[t]
+
+
+def model_covers(t):
+    """the Lean model's type-expression grammar: int/ints bounds are int literals, float/floats bounds int literals or
+    decimal literals n/d with d | 8 (no exponent, no negative zero), all of magnitude < 10^6.  Types outside it are
+    evaluated by the oracle only (counted as impl_only_*)."""
+    name, d = declared(t)
+    for lit in d["bound_lits"]:
+        if _INT_LIT.match(lit):
+            continue
+        if name in ("int", "ints"):
+            return False
+        if not _DEC_LIT.match(lit):
+            return False
+        x = float(lit)
+        if (x * 8) != int(x * 8) or (x == 0 and lit.startswith("-")):
+            return False
+    return True
+
+
+def _spell(rng, x):
+    """a value text for the number x: plain, as a float, as a quotient / product / exponent form"""
+    if x == int(x):
+        i = int(x)
+        return rng.choice(["%d", "%d", "%d", "%d.0", "%d/1", "%de0", "2*%d/2", "%d.", "%d+0"]) % i
+    n, d = float(x).as_integer_ratio()
+    return rng.choice([repr(float(x)), repr(float(x)), "%d/%d" % (n, d), "%r+0" % float(x)])
+
+
+def near_bound_atom(rng, d):
+    """a number at or next to a declared bound: the bound, its floor / ceiling / truncation / nearest integer, the
+    integers and half-steps on either side — the places where < versus <=, min versus max and any rounding of the bound
+    itself show"""
+    b = rng.choice([x for x in (d["value_min"], d["value_max"]) if x is not None])
+    x = rng.choice([b, math.floor(b), math.ceil(b), int(b), round(b), math.floor(b) - 1, math.ceil(b) + 1,
+                    b - 0.5, b + 0.5, b - 1, b + 1, b - 0.125, b + 0.125])
+    return _spell(rng, x)
+
+
+def value_text(rng, d=None):
     n = rng.choice([1, 1, 1, 2, 2, 3, 4])
-    t = rng.choice(ATOMS)
+    near = d is not None and (d.get("value_min") is not None or d.get("value_max") is not None) and rng.random() < 0.5
+
+    def atom():
+        if near and rng.random() < 0.7:
+            return near_bound_atom(rng, d)
+        return rng.choice(ATOMS)
+    t = atom()
     for _ in range(n - 1):
-        t += rng.choice(SEPS) + rng.choice(ATOMS)
+        t += rng.choice(SEPS) + atom()
     k = rng.random()
     if k < 0.1:
         t = "[" + t + "]"
@@ -59,13 +182,14 @@ def value_text(rng):
     return t
 
 
-def in_domain(conv, v):
-    """the domain predicate of the statement; None or a description"""
-    pt = conv.phil_type
+def in_domain(t, v):
+    """the domain predicate of the statement for the type expression t, evaluated against the DECLARED arguments;
+    None or a description"""
+    pt, d = declared(t)
     isauto = isinstance(v, AutoT)
     if pt in ("int", "float"):
         if v is None:
-            return None if conv.allow_none else "None although allow_none=False"
+            return None if d["allow_none"] else "None although allow_none=False"
         if isauto:
             return None
         if pt == "int":
@@ -74,7 +198,7 @@ def in_domain(conv, v):
         else:
             if not isinstance(v, float):
                 return "float type yielded %r" % (v,)
-        return bounds(conv, v)
+        return bounds(d, v)
     if pt == "bool":
         return None if (v is None or isauto or isinstance(v, bool)) else "bool type yielded %r" % (v,)
     if pt in ("ints", "floats"):
@@ -82,36 +206,37 @@ def in_domain(conv, v):
             return None
         if not isinstance(v, list):
             return "list type yielded %r" % (v,)
-        if conv.size_min is not None and len(v) < conv.size_min:
-            return "%d elements, size_min=%d" % (len(v), conv.size_min)
-        if conv.size_max is not None and len(v) > conv.size_max:
-            return "%d elements, size_max=%d" % (len(v), conv.size_max)
+        if d["size_min"] is not None and len(v) < d["size_min"]:
+            return "%d elements, size_min=%d" % (len(v), d["size_min"])
+        if d["size_max"] is not None and len(v) > d["size_max"]:
+            return "%d elements, size_max=%d" % (len(v), d["size_max"])
         for x in v:
             if x is None:
-                if not conv.allow_none_elements:
+                if not d["allow_none_elements"]:
                     return "None element although not enabled"
             elif isinstance(x, AutoT):
-                if not conv.allow_auto_elements:
+                if not d["allow_auto_elements"]:
                     return "Auto element although not enabled"
             else:
                 if pt == "ints" and not isinstance(x, int):
                     return "ints element %r" % (x,)
                 if pt == "floats" and not isinstance(x, float):
                     return "floats element %r" % (x,)
-                b = bounds(conv, x)
+                b = bounds(d, x)
                 if b:
                     return b
         return None
     return None
 
 
-def bounds(conv, x):
-    if isinstance(x, float) and math.isnan(x) and (conv.value_min is not None or conv.value_max is not None):
+def bounds(d, x):
+    lo, hi = d["value_min"], d["value_max"]
+    if isinstance(x, float) and math.isnan(x) and (lo is not None or hi is not None):
         return "nan accepted although bounds are declared"
-    if conv.value_min is not None and not (x >= conv.value_min):
-        return "%r below value_min=%r" % (x, conv.value_min)
-    if conv.value_max is not None and not (x <= conv.value_max):
-        return "%r above value_max=%r" % (x, conv.value_max)
+    if lo is not None and not (x >= lo):
+        return "%r below the declared value_min=%r" % (x, lo)
+    if hi is not None and not (x <= hi):
+        return "%r above the declared value_max=%r" % (x, hi)
     return None
 
 
@@ -138,7 +263,7 @@ def master_def(t, route="parse"):
 
 def run(ctx):
     rng = ctx.rng
-    n = ctx.scale(6000, 150000, 30000)
+    n = ctx.scale(12000, 200000, 40000)
     cases, reqs, impls = [], [], []
     # spellings that must be accepted
     for t, text, want in MUST_ACCEPT:
@@ -154,12 +279,25 @@ def run(ctx):
             ok, got = False, "%s: %s" % (type(e).__name__, e)
         if not ok:
             ctx.fail({"type": t, "text": text}, "accepted spelling %r for %s gave %r, expected %r" % (text, t, got, want))
+    # the generated pool of constructor-argument combinations (drawn per run from the seed)
+    pool = []
+    for _ in range(ctx.scale(400, 6000, 2000)):
+        t = gen_type(rng)
+        try:
+            master_def(t)
+        except RuntimeError as e:       # a combination the constructor refuses is no typed parameter
+            ctx.count("generated_type_refused")
+            _defs.pop((t, "parse"), None)
+            continue
+        pool.append(t)
     for i in range(n):
         if ctx.time_left() < 25:
             ctx.notes.append("stopped early on time budget")
             break
-        t = rng.choice(TYPES)
-        text = value_text(rng)
+        generated = bool(pool) and i % 2 == 1
+        t = rng.choice(pool) if generated else rng.choice(TYPES)
+        pt, decl = declared(t)
+        text = value_text(rng, decl if (generated or rng.random() < 0.3) else None)
         try:
             words = freephil.tokenize_value_literal(input_string=text, source_info=None)
         except BaseException:
@@ -170,17 +308,21 @@ def run(ctx):
         route = rng.choice(ROUTES)
         d = master_def(t, route).customized_copy(words=words)
         ctx.case((t, text), nontrivial=any(c.isalnum() for c in text))
-        ctx.count(t.split("(")[0])
+        ctx.count(pt)
         ctx.count("route_" + route)
+        ctx.count("types_generated" if generated else "types_fixed_list")
+        for lit in decl.get("bound_lits", ()):
+            cls = "integral" if _INT_LIT.match(lit) else ("fractional" if float(lit) != int(float(lit)) else "integral_float")
+            ctx.count("bound_%s_on_%s" % (cls, "int_type" if pt in ("int", "ints") else "float_type"))
         if str(d.type) != str(master_def(t).type):
             ctx.fail({"type": t, "route": route}, "the %s copy of the master declares %s, the master %s"
                      % (route, d.type, master_def(t).type))
         ia = call_j(lambda: d.extract(), pval_j)
         ctx.count("outcome_" + (ia[0] if ia[0] == "ok" else ia[1] + ":" + str(ia[2])))
-        # oracle: error naming the parameter, or a value in the domain
+        # oracle: error naming the parameter, or a value in the DECLARED domain
         if ia[0] == "ok":
             v = d.extract()
-            f = in_domain(d.type, v)
+            f = in_domain(t, v)
             if f:
                 nan = "nan" in f
                 ctx.fail({"type": t, "text": text, "route": route}, f, finding="D22" if nan else None, model_violates=None)
@@ -192,12 +334,15 @@ def run(ctx):
                     ctx.fail({"type": t, "text": text}, "error does not name the parameter: %s" % e)
         else:
             ctx.fail({"type": t, "text": text}, "extraction raised %s" % (ia[1:],))
-        # validate() reports the same thing as extraction
+        if i % 1500 == 0:
+            ctx.sample({"type": t, "text": text, "outcome": ia})
+        if not model_covers(t):
+            # type expression outside the model's grammar: oracle only
+            ctx.count("impl_only_type_outside_model")
+            continue
         cases.append({"type": t, "text": text, "route": route})
         reqs.append(["from_words", enc(t), None, [word_j(w) for w in words], eval_table(words)])
         impls.append(ia)
-        if i % 1500 == 0:
-            ctx.sample({"type": t, "text": text, "outcome": ia})
         if len(reqs) >= 5000:
             if ctx.mode != "impl-only":
                 ctx.corr("from_words", cases, reqs, impls)
@@ -214,15 +359,15 @@ def finding_still_fails(f):
         v = d.customized_copy(words=words).extract()
     except RuntimeError:
         return False
-    return in_domain(d.type, v) is not None
+    return in_domain(w["type"], v) is not None
 
 
 def replay(payload):
     c = payload["failure"]["case"]
-    d = master_def(c["type"])
+    d = master_def(c["type"], c.get("route", "parse"))
     words = freephil.tokenize_value_literal(input_string=c["text"], source_info=None)
     r = call_j(lambda: d.customized_copy(words=words).extract(), pval_j)
     print(c, "->", r)
     if r[0] == "ok":
-        return in_domain(d.type, d.customized_copy(words=words).extract()) is None
+        return in_domain(c["type"], d.customized_copy(words=words).extract()) is None
     return r[1] == "runtime"
